@@ -97,6 +97,14 @@ CONTENT_VARIANTS = {
         ('indent-float', {'indent': 1.5}, MAY),
         ('codec-int', {'encoding': 5}, MAY),
         ('codec-empty', {'encoding': ''}, MAY),
+        # a codec name typed with a look-alike of an ASCII character (the
+        # codec lookup folds it; the header cannot carry it), together with
+        # every other option a preamble takes
+        ('codec-lookalike', {'encoding': 'utf\u201116', 'line_endings':
+                             'dos', 'mimetype': 'text/markdown',
+                             'text': 'a\r\nb\r\n'}, MAY),
+        ('codec-lookalike-8', {'encoding': 'UTF\u00ad8', 'indent': 2,
+                               'line_endings': 'unix'}, MAY),
     ],
     'write_meta': [
         ('meta-list', {'metadata': [1, 2]}, REJECT),
@@ -115,6 +123,7 @@ CONTENT_VARIANTS = {
         ('meta-unserialisable', {'metadata': {'x': {'$object': 1}}}, MAY),
         ('meta-tuple-key', {'metadata': {'x': {'$set': [1]}}}, MAY),
         ('codec-empty', {'encoding': ''}, MAY),
+        ('codec-lookalike', {'encoding': 'utf\u20118'}, MAY),
     ],
     'write_diff': [
         ('diff-str', {'content': 'abc'}, REJECT),
@@ -132,6 +141,8 @@ CONTENT_VARIANTS = {
          REJECT),
         ('codec-unknown-le', {'encoding': 'nope-8', 'line_endings': 'unix'},
          MAY),
+        ('codec-lookalike', {'encoding': 'latin\u20111', 'line_endings':
+                             'dos', 'diff_type': 'binary'}, MAY),
     ],
 }
 CONTAINER_VARIANTS = [
@@ -334,6 +345,11 @@ class Model(object):
             enc_eff = UNKNOWN
         elif enc is not None:
             enc_eff = enc
+
+            if not R.VAL_RE.match(enc.encode('utf-8', 'replace')):
+                # a name the header line cannot carry (the codec lookup may
+                # know it all the same)
+                cls = MAY
         elif name == 'write_diff':
             enc_eff = None
         else:
